@@ -85,3 +85,23 @@ Proof.
   intros o delay H. unfold timed_reaction, produce_deadline_ms.
   apply Z.ltb_ge in H. rewrite H. simpl. auto.
 Qed.
+
+(* NewWriter's configuration: the effective configuration is cfg_of_options of the mapped
+   fields; in particular the configured BatchBytes / BatchSize / MaxAttempts are the limits *)
+Lemma cfg_of_writer_config_eq : forall c wt retr,
+  cfg_of_writer_config c wt retr = cfg_of_options (options_of_writer_config c) (wc_async c) wt retr /\
+  batchBytes (cfg_of_writer_config c wt retr) = Z.to_N (dflt (wc_batchBytes c) 1048576) /\
+  batchSize (cfg_of_writer_config c wt retr) = Z.to_nat (dflt (wc_batchSize c) 100) /\
+  maxAttempts (cfg_of_writer_config c wt retr) = Z.to_nat (dflt (wc_maxAttempts c) 10) /\
+  cfg_ok (cfg_of_writer_config c wt retr).
+Proof.
+  intros. repeat split; try reflexivity. apply cfg_of_options_ok. apply cfg_of_options_ok.
+Qed.
+
+(* the specified classification: a cut response (unexpected EOF) and a time-out are retriable,
+   a plain EOF, a permanent error and UNKNOWN_SERVER_ERROR are not *)
+Lemma retriable_spec_examples :
+  retriable_spec 1001%N = true /\ retriable_spec 1005%N = true /\ retriable_spec 1008%N = false /\
+  retriable_spec 1006%N = false /\ retriable_spec 65535%N = false /\ retriable_spec 7%N = true /\
+  retriable_spec 9%N = false /\ retriable_spec 3%N = true /\ retriable_spec 1%N = false.
+Proof. vm_compute. repeat split; reflexivity. Qed.
